@@ -464,7 +464,7 @@ def deviations(cn, c):
             pa = c['print'].index(a)
             if any(b['slot'] in c['print'] and c['print'].index(b['slot']) < pa for b in c['walk'][i + 1:]):
                 out.append((cn, a, 'order'))
-        if e['via'] is not None:
+        if (e['via'] is not None) != (k == 'container'):
             out.append((cn, a, 'via'))
         if e['repl'] != 'same':
             out.append((cn, a, 'replace'))
